@@ -11,6 +11,15 @@ NOTE = ("Trusted base: the Go type checker (go/types), go/packages loading of /r
 
 # id -> (technique, level text, design ref)
 CLAIMS = {
+ "C17": ("table-row coherence of StringValueParsers / BigEndianBytesConverters + parse-primitive acceptance class per row (SSA reachability of strconv.ParseUint/ParseInt/big.SetString and sign guards) + sibling unification",
+         "Structural necessary conditions: each parser/bytes-converter row names a single numeric type with its own width, rows exist for all number types, sign acceptance of fromString depends only on signedness (not width), and sibling byte conversions agree.",
+         "DESIGN.md §4 C17"),
+ "C33": ("syntactic effect classification of every range over a Go map in the execution packages + who-may-use of nondeterminism sources with a value-flow whitelist for wall-clock reads + guard-edge check of the deterministic commit selection",
+         "Structural necessary conditions: no execution-path loop depends on Go map order, no goroutine/select/PRNG/clock value can reach program state, and storage is committed through atree's deterministic commit in sorted order.",
+         "DESIGN.md §4 C33"),
+ "C44": ("pinned-constant table (go/constant values) + encoder-tag/decoder-arm agreement (AST, resolved constants and result types) + pinned CBOR primitive sequence per storable Encode method",
+         "Structural necessary conditions: no persisted number is renumbered or reused, every tag an encoder writes is decoded to the same type, and the primitive sequence each storable encoder emits equals the pinned format.",
+         "DESIGN.md §4 C44"),
  "C13": ("checked-vs-saturating guard-list agreement (AST) over sema's declared SaturatingArithmeticSupport pairs + panic-kind signatures + sibling unification + type-switch table of the fixed-point saturation helpers",
          "Structural necessary conditions: each declared saturating operation tests exactly the checked operation's overflow predicates and clamps to the type's own Max/Min, raises no overflow kind, is implemented directly, and siblings agree.",
          "DESIGN.md §4 C13"),
